@@ -109,6 +109,25 @@ def check_stack_like(ctx, rp, q, listname, first_wins_target):
             ctx.ok('R-MACONCAT', '%s:%d' % (q, c.lineno), where, d)
         else:
             ctx.violation(Finding('R-MACONCAT', rp, q, api.stmt_of(c), '%s drops the masks of masked inputs; stacking must use numpy.ma.concatenate' % d))
+        # R-STACKAXIS: the pieces are joined along the position the stack dimension has in this variable
+        ax = kw(c, 'axis') if kw(c, 'axis') is not None else (c.args[1] if len(c.args) > 1 else None)
+
+        def is_pos(e, depth=0):
+            if isinstance(e, ast.Call) and isinstance(e.func, ast.Attribute) and e.func.attr == 'index' and e.args and norm(e.args[0]) == 'stackdim' \
+                    and norm(e.func.value) in ('list(var.dimensions)', 'var.dimensions', 'tuple(var.dimensions)'):
+                return True
+            if isinstance(e, ast.Name) and depth < 3:
+                defs = [s2 for s2 in iter_stmts(fn.body) if isinstance(s2, ast.Assign) and any(isinstance(t, ast.Name) and t.id == e.id for t in s2.targets)]
+                return bool(defs) and all(is_pos(d.value, depth + 1) for d in defs)
+            return False
+        if ax is None:
+            ctx.violation(Finding('R-STACKAXIS', rp, q, api.stmt_of(c), 'the pieces are concatenated without axis=: they are joined along the first axis '
+                                  'whatever position the stack dimension has in the variable'))
+        elif is_pos(ax):
+            ctx.ok('R-STACKAXIS', '%s:%d' % (q, c.lineno), where, 'axis=%s = position of stackdim in var.dimensions' % norm(ax))
+        else:
+            ctx.violation(Finding('R-STACKAXIS', rp, q, api.stmt_of(c), 'the concatenation axis %s is not the position of the stack dimension in this '
+                                  "variable's dimensions" % norm(ax)))
         seq = c.args[0] if c.args else None
         nm = None
         if isinstance(seq, ast.ListComp) and len(seq.generators) == 1 and not seq.generators[0].ifs and isinstance(seq.generators[0].iter, ast.Name):
@@ -284,6 +303,7 @@ def run(ctx):
     for r, d in (('R-ORDER', 'file list reaches concatenate / stack in argument order'),
                  ('R-SUMLEN', 'stacked length = sum of the input lengths over the same list'),
                  ('R-MACONCAT', 'concatenation is numpy.ma.concatenate on every path'),
+                 ('R-STACKAXIS', 'the concatenation axis is the position of the stack dimension in each variable'),
                  ('R-FIRSTWINS', 'an already stored non-stacked variable is never stored again'),
                  ('R-UNLIM', 'unlimited flags of stacked/shared dimensions propagated'),
                  ('R-FORELSE', 'no for/else without break in the multi-file helpers'),
